@@ -57,7 +57,8 @@ fn oracle_a(ctx: &mut Ctx, rng: &mut Rng) {
                 );
                 return;
             }
-            // insert into a valid packet: the result must be accepted and hold the record at the end of the section
+            // insert into a valid packet: the result must be accepted and hold the record in that section, everything else
+            // unchanged (WHERE in the section the record lands is C09's statement, not this one's)
             let sec = rng.below(3);
             let cfg = Cfg { response: if sec < 2 { Some(true) } else { None }, max_records: 6, ..Default::default() };
             let v = gen_valid(rng, &cfg);
@@ -86,6 +87,7 @@ fn oracle_a(ctx: &mut Ctx, rng: &mut Rng) {
                     ctx.count("inserted");
                     let mut want = v.msg.clone();
                     want.sec[sec].push(tc.rec.clone());
+                    let mut inserted: Vec<(usize, Record)> = vec![(sec, tc.rec.clone())];
                     // a second record into another section of the same object (bookkeeping of the first must hold)
                     let (b, want) = if rng.chance(1, 3) && v.msg.is_response() {
                         let tc2 = valid_text(rng, None);
@@ -106,6 +108,7 @@ fn oracle_a(ctx: &mut Ctx, rng: &mut Rng) {
                                 ctx.count("double_insertions");
                                 let mut w2 = want.clone();
                                 w2.sec[sec2].push(tc2.rec.clone());
+                                inserted.push((sec2, tc2.rec.clone()));
                                 (b2, w2)
                             }
                             Ok(None) => (b, want),
@@ -122,7 +125,7 @@ fn oracle_a(ctx: &mut Ctx, rng: &mut Rng) {
                         Ok(d) => {
                             if !matches!(lib_parse(&b), Ok(Ok(_))) {
                                 ctx.violation("C13", "insert|output-rejected-by-parser".into(), short(&b), &v.bytes);
-                            } else if let Some(diff) = d.msg.diff(&want, false, true) {
+                            } else if let Some(diff) = d.msg.diff_unordered_insert(&want, &inserted) {
                                 ctx.violation("C13", "insert|wrong-message".into(), format!("section {}: {}", sec, diff), &v.bytes);
                             }
                         }
